@@ -146,6 +146,13 @@ def module_and_class_name(t: Union[Type, _SpecialForm]) -> str:
     return f"{t.__module__}.{t.__name__}"
 
 
+def module_and_qualified_class_name(t: Type) -> str:
+    """
+    :return: The name under which the class is reachable from its module, i.e. including the classes it is nested in.
+    """
+    return f"{t.__module__}.{t.__qualname__}"
+
+
 def is_direct_subclass(cls: Type, *bases: Type) -> bool:
     """
     :param cls: The class to check.
